@@ -86,7 +86,7 @@ class Own:
                     if o is None:
                         ok = False
                         break
-                    o = P.strip(f, o)
+                    o = P.strip(f, v.resolve(o))      # (a single return block: the returned value is a phi, resolved along the path)
                     if isinstance(o, int) and o >= f.nparams and f.insts[o].op == "call":
                         k = self.producer_kind(f, f.insts[o])
                         if k in ("heap", "json"):
